@@ -25,6 +25,10 @@ def cases():
 
 def main():
     want = set(sys.argv[1:])
+    # private copy of the engine so that rebuilding /verif/bin/cffvc meanwhile does not invalidate the pass cache
+    priv = os.path.join(base, "verif-selftest-cffvc")
+    shutil.copy(os.path.join(V, "bin", "cffvc"), priv)
+    os.environ["VERIF_BIN"] = priv
     resf = os.path.join(V, "selftest", "results.json")
     results = json.load(open(resf)) if os.path.exists(resf) else {}
     for name, patch in cases():
